@@ -1,6 +1,8 @@
 import VerifModel.Base.Proto
 import VerifModel.Model.DetMetrics
+import VerifModel.Model.DetRank
 import VerifModel.Spec.Det
+import VerifModel.Spec.Rank
 import VerifModel.Model.DetSingle
 import VerifModel.Driver.Cont
 /- Driver ops for the deterministic metrics (C05). -/
@@ -45,6 +47,11 @@ def specEval (T : Tr) (name : String) (agg : Vec → XR) (os fs : List Rat) : Op
   | "alphaindex" => some (Spec.Det.alphaindex os fs) | "dmb" => some (Spec.Det.dmb os fs)
   | "mbias" => some (Spec.Det.mbias os fs) | "derror" => some (Spec.Det.derror os fs)
   | "rmsf" => some (Spec.Det.rmsf T agg os fs)
+  | "corr" => some (Spec.Rank.pearson T os fs)
+  | "rankcorr" => some (Spec.Rank.spearman T os fs)
+  | "kendallcorr" => some (Spec.Rank.tauB T os fs)
+  | "kge" => some (Spec.Rank.kge T os fs)
+  | "leps" => some (Spec.Rank.leps os fs)
   | _ => none
 
 def detOne (name agg obs fcst : String) : Option String := do
@@ -54,6 +61,12 @@ def detOne (name agg obs fcst : String) : Option String := do
     some (toString (computeFromObsFcst (corr floatTr) obs fcst))
   else if name == "kge" then
     some (toString (computeFromObsFcst (kge floatTr) obs fcst))
+  else if name == "rankcorr" then
+    some (toString (computeFromObsFcst (rankcorr floatTr) obs fcst))
+  else if name == "kendallcorr" then
+    some (toString (computeFromObsFcst (kendallcorr floatTr) obs fcst))
+  else if name == "leps" then
+    some (toString (computeFromObsFcst leps obs fcst))
   else some (showOpt (detScore floatTr name aggf obs fcst))
 
 def handle (args : List String) : Option String :=
